@@ -100,6 +100,14 @@ Theorem C19_ghost_ownership : forall parse_o emit_o h,
 Proof. exact ghost_safe. Qed.
 Print Assumptions C19_ghost_ownership.
 
+(** ... and if the process does not abort, thread exit (TASKS dropped) frees every source buffer
+    ever allocated, still without any fault *)
+Theorem C19_ghost_exit_frees_all : forall parse_o emit_o h,
+  let gh := g_exit (grun 0 parse_o emit_o init_state ghost_init h) in
+  gh_faults gh = [] /\ forall b, (b < gh_next gh)%N -> is_freed b gh = true.
+Proof. exact ghost_exit_safe. Qed.
+Print Assumptions C19_ghost_exit_frees_all.
+
 (** ... which rests on that capacity: one spare byte and the first free_task is a double free *)
 Theorem C19_ghost_needs_exact_capacity :
   gh_faults (grun 1 (fun _ => POk []) (fun _ _ => EOk []) init_state ghost_init
